@@ -22,7 +22,7 @@ RULE = ('Every case evaluates ALL operations of the statement on freshly generat
         '~M against a Gaussian-elimination determinant: two-sided inverse exactly, or - for constructed '
         'singular matrices - the same object plus exactly one warning; from_translation / from_scale / '
         'translate by their action on points; orthogonal_projection by the images of the 8 box corners, with '
-        'dyadic extents). Swizzling is ENUMERATED exhaustively per case: every string of length 2-4 over the '
+        'dyadic extents, half of the boxes given with a flipped x or y axis). Swizzling is ENUMERATED exhaustively per case: every string of length 2-4 over the '
         'component letters (28 / 117 / 336) plus invalid strings. Float regime (magnitudes in {0} u [1e-3, '
         '1e3], tolerance 1e-9 relative + 1e-9 absolute): abs/mag/distance (also of points 1e-6..1 apart but far from the origin, both ways round, and of a point to an equal copy; expected value computed exactly over the rationals and rounded once), normalize, from_magnitude, '
         'from_heading, from_polar, rotate (generated angles and landmark angles: exact float multiples of pi/2, pi/4, 15 degrees and pi, both signs, beyond a full turn), limit with |v|/m concentrated in [0.3, 3] and m on both sides of 1. '
@@ -315,6 +315,14 @@ def transforms(F, flo, facts):
     left, bottom, near = dy(0), dy(1), abs(dy(2)) + 0.125
     w, h, d = 2.0 ** (flo[3] % 7 - 2), 2.0 ** (flo[4] % 7 - 2), 2.0 ** (flo[5] % 7 - 2)
     right, top, far = left + w, bottom + h, near + d
+    # the view box may be given with a flipped axis (y-down screen coordinates: bottom > top; a mirrored x): the
+    # formula is the same - the first bound goes to -1, the second to +1
+    if flo[6] % 4 in (1, 3):
+        bottom, top = top, bottom
+        facts['orthogonal_projection_with_a_flipped_axis'] += 1
+    if flo[6] % 4 in (2, 3):
+        left, right = right, left
+        facts['orthogonal_projection_with_a_flipped_axis'] += 1
     P = dm.Mat4.orthogonal_projection(left, right, bottom, top, near, far)
     for (x, ex), (y, ey), (z, ez) in itertools.product(((left, -1), (right, 1)), ((bottom, -1), (top, 1)),
                                                        ((-near, -1), (-far, 1))):
